@@ -416,18 +416,12 @@ theorem adjustToStrideAndRemainder_w {I r : Interval} {st rm : Nat} (h : I.adjus
 theorem signedIntersect_w {I J r : Interval} (h : I.signedIntersect J = some r) : r.w = I.w := by
   unfold Interval.signedIntersect at h
   simp only at h
-  split at h
-  · split at h
-    · cases h; rfl
-    · cases h
-  · split at h
-    · split at h
-      · cases h; rfl
-      · cases h
-    · split at h
-      · have e := adjustToStrideAndRemainder_w h
-        exact e
-      · cases h
+  repeat' split at h
+  all_goals
+    first
+    | (cases h; done)
+    | (cases h; rfl)
+    | (have e := adjustToStrideAndRemainder_w h; exact e)
 
 theorem intersect_w {a b r : IntervalDomain} (h : a.intersect b = some r) : r.interval.w = a.interval.w :=
   signedIntersect_w (C04.intersect_interval a b r h)
@@ -598,8 +592,8 @@ theorem intersect_abs_sound {ρ : Nat → Int} {cur res : DData} (hcur : cur.WF)
     · rw [hct] at ht; cases ht
     · rcases memI_norel hr hvr.2 with ht | ⟨b, hb, hmb⟩
       · rw [hrt] at ht; cases ht
-      · obtain ⟨hbw, hbwid, hlcm⟩ := hAA a b ha hb hma hmb
-        obtain ⟨z, hz, hzm⟩ := C04.intersect_sound a b (hcur.2.1 a ha).1 hbw hbwid hlcm hma hmb
+      · obtain ⟨hbw, hbwid, _⟩ := hAA a b ha hb hma hmb
+        obtain ⟨z, hz, hzm⟩ := C04.intersect_sound a b (hcur.2.1 a ha).1 hbw hbwid hma hmb
         rw [if_neg (by simp [isEmpty, ha, hb, hz])]
         refine ⟨_, rfl, ⟨hvc.1, Or.inr (Or.inl ⟨z, ?_, hzm⟩)⟩, rfl, fun a' ha' => fieldwise_abs_w hcur ha'⟩
         simp only [ha, hb, hz]
@@ -634,8 +628,7 @@ theorem intersect_ptr_self_sound {ρ : Nat → Int} {cur : DData} (hcur : cur.WF
       have hl : lookupRel i cur.withoutHints.rel = some (itvWithoutHints o) := by
         simp only [withoutHints]
         rw [lookupRel_map, lookupRel_of_mem_nodup hn hmem]; rfl
-      obtain ⟨z, hz, hzm⟩ := C04.intersect_sound o (itvWithoutHints o) how (itvWithoutHints_wf how) rfl
-        (by rw [itvWithoutHints_interval, Nat.lcm_self]; exact how.1.2.2.2.2.2.2) hx hx
+      obtain ⟨z, hz, hzm⟩ := C04.intersect_sound o (itvWithoutHints o) how (itvWithoutHints_wf how) rfl hx hx
       have hmz := mem_intersectRel hmem hl hz
       have hne : ¬ (({ size := cur.size, rel := intersectRel cur.rel cur.withoutHints.rel, abs := none, top := false } : DData).isEmpty = true) := by
         intro he
